@@ -59,13 +59,14 @@ def make_value_script(oc):
 
 
 def search_modes():
-    return st.lists(st.sampled_from(["real", "real", "evaluated", "incumbent", "fresh"]), min_size=1, max_size=5)
+    return st.lists(st.sampled_from(["real", "real", "evaluated", "incumbent", "fresh", "empty", "empty"]), min_size=1, max_size=5)
 
 
 def make_search_script(modes):
     """Scripted stand-in for the hedge search: 'real' defers to the real search; 'evaluated' proposes an already
     logged point; 'incumbent' proposes the current point (both are removed by the candidate filter => empty search
-    set); 'fresh' proposes the incumbent shifted by one search-mesh step in a cycling coordinate."""
+    set once the filter removes evaluated points); 'empty' returns an empty candidate set, as the ES does when every
+    candidate is infeasible; 'fresh' proposes the incumbent shifted by one search-mesh step in a cycling coordinate."""
     cnt = {"n": 0}
 
     def ss(tr, hedge, u, lb, ub, fl, gp, optim_state):
@@ -75,6 +76,9 @@ def make_search_script(modes):
         if m == "real":
             return None
         u = np.array(u, dtype=float).ravel()
+        if m == "empty":
+            # what the ES returns when every candidate was infeasible / filtered out: an empty search set
+            return np.empty((0, u.size)), np.empty((0,))
         if m == "evaluated":
             return fl.X[0].copy(), np.array([0.0])
         if m == "incumbent":
